@@ -44,6 +44,11 @@ CONFIGS = {
             DEBUG_FLAGS, "miniz_oxide"),
     "N0": ("miniz_oxide", ["--no-default-features", "-Zbuild-std=core", "--target", "x86_64-unknown-none"],
            RELEASE_FLAGS, "miniz_oxide"),
+    # optional dependencies must not drag std (or, for N5, alloc) in: sysroots without them
+    "N5": ("miniz_oxide", ["--no-default-features", "--features", "simd", "-Zbuild-std=core", "--target", "x86_64-unknown-none"],
+           RELEASE_FLAGS, "miniz_oxide"),
+    "N7": ("miniz_oxide", ["--no-default-features", "--features", "with-alloc,serde,block-boundary,simd", "-Zbuild-std=core,alloc",
+                           "--target", "x86_64-unknown-none"], RELEASE_FLAGS, "miniz_oxide"),
 }
 
 
